@@ -67,7 +67,19 @@ impl Operand for Num {
 impl Operand for v1::DecisionVariable {
     const KIND: &'static str = "&DecisionVariable";
     fn generate(rng: &mut Rng, cfg: &Cfg) -> Self {
-        dvar(*rng.pick(&cfg.f.ids), KIND_CONTINUOUS, None)
+        // whatever else the variable message carries (kind, bound, a fixed value, names), as an
+        // arithmetic operand it stands for the monomial x_id
+        let kind = *rng.pick(&[KIND_CONTINUOUS, KIND_CONTINUOUS, KIND_BINARY, KIND_INTEGER, KIND_SEMI_INTEGER, KIND_SEMI_CONTINUOUS, 0]);
+        let bound = if rng.bool() { None } else { Some((rng.range(-4, 0) as f64, rng.range(0, 5) as f64)) };
+        let mut v = dvar(*rng.pick(&cfg.f.ids), kind, bound);
+        if rng.chance(1, 3) {
+            v.substituted_value = Some(*rng.pick(&[0.0, 1.0, 2.0, -1.5, 0.25]));
+        }
+        if rng.chance(1, 4) {
+            v.name = Some(rng.ascii_word(3));
+            v.subscripts = vec![rng.range(-2, 9)];
+        }
+        v
     }
     fn canon(&self) -> Poly {
         Poly::var(self.id)
@@ -83,7 +95,12 @@ impl Operand for v1::DecisionVariable {
 impl Operand for v1::Parameter {
     const KIND: &'static str = "&Parameter";
     fn generate(rng: &mut Rng, cfg: &Cfg) -> Self {
-        parameter(*rng.pick(&cfg.f.ids))
+        let mut p = parameter(*rng.pick(&cfg.f.ids));
+        if rng.chance(1, 4) {
+            p.name = Some(rng.ascii_word(3));
+            p.subscripts = vec![rng.range(-2, 9)];
+        }
+        p
     }
     fn canon(&self) -> Poly {
         Poly::var(self.id)
